@@ -455,6 +455,23 @@ func (w *nodeWorld) startNode(extra ...Option) error {
 			return ctx.Err()
 		}
 	}
+	if pf := w.plan.k("p_open_fail", 0); pf > 0 {
+		// the node's attempts to open a stream fail now and then (first opens and re-opens after a
+		// stream loss alike), or take longer than usual
+		s := w.s
+		n.h.openFail = func(to peer.ID, k int) (bool, time.Duration) {
+			// (root goroutine: open requests are handled at quiescence)
+			x := s.hf(fmt.Sprintf("openfail|%s|%d", to, k))
+			switch {
+			case x < pf:
+				return true, 0
+			case x < pf+0.1:
+				s.fault("stream_open_slow")
+				return false, time.Duration(5+s.hn(fmt.Sprintf("openslow|%s|%d", to, k), 3000)) * time.Millisecond
+			}
+			return false, 0
+		}
+	}
 	w.s.settle()
 	w.registerTopicValidators()
 	return nil
